@@ -29,6 +29,8 @@ pub struct Shared {
     pub records: Mutex<Vec<Record>>,
     pub serial: AtomicU64,
     pub backend_errors: Mutex<Vec<String>>,
+    /// handles on the h2c backend connections currently open (to close them from the cell loop)
+    pub h2_conns: Mutex<Vec<TcpStream>>,
 }
 
 impl Shared {
@@ -36,6 +38,13 @@ impl Shared {
         let k = self.serial.fetch_add(1, Ordering::SeqCst);
         let mut rng = Rng::for_case(self.seed, 1301, (self.cell << 24) | k);
         (k, gen_response(&mut rng, &self.corr_name, &self.sticky_name, back))
+    }
+    /// close every h2c backend connection: sozu has to open a fresh one (fresh HPACK state) for
+    /// the next request towards an h2c cluster
+    pub fn reset_h2_backend_connections(&self) {
+        for s in self.h2_conns.lock().unwrap().drain(..) {
+            let _ = s.shutdown(std::net::Shutdown::Both);
+        }
     }
     fn note(&self, e: String) {
         let mut g = self.backend_errors.lock().unwrap();
@@ -98,11 +107,19 @@ pub fn start_h1_backend(addr: SocketAddr, shared: Arc<Shared>) -> std::io::Resul
                         }
                         out.extend_from_slice(format!("X-Vh-Rec: {serial}\r\n").as_bytes());
                         let body = body_bytes(serial, resp.body_len);
+                        let mut split_at: Option<usize> = None;
                         if resp.chunked {
                             out.extend_from_slice(b"Transfer-Encoding: chunked\r\n\r\n");
                             let tr: Vec<(String, String)> =
                                 resp.trailers.iter().map(|(n, v)| (n.clone(), String::from_utf8_lossy(v).into_owned())).collect();
-                            out.extend_from_slice(&h1::chunked_encode(&body, &[97, 13], &tr));
+                            let enc = h1::chunked_encode(&body, &[97, 13], &tr);
+                            // region: last-chunk line "0 CRLF" + trailer lines + final CRLF
+                            let region_len = 3 + tr.iter().map(|(n, v)| n.len() + 2 + v.len() + 2).sum::<usize>() + 2;
+                            let region_start = out.len() + enc.len() - region_len;
+                            out.extend_from_slice(&enc);
+                            if let Some(pm) = resp.cut_in_trailer_region {
+                                split_at = Some(region_start + 1 + (pm as usize * (region_len - 1)) / 1001);
+                            }
                         } else {
                             out.extend_from_slice(format!("Content-Length: {}\r\n\r\n", body.len()).as_bytes());
                             out.extend_from_slice(&body);
@@ -117,7 +134,8 @@ pub fn start_h1_backend(addr: SocketAddr, shared: Arc<Shared>) -> std::io::Resul
                             body_len,
                             resp,
                         });
-                        if s.write_all(&out).is_err() {
+                        let cuts: Vec<usize> = split_at.into_iter().filter(|c| *c > 0 && *c < out.len()).collect();
+                        if write_segmented(&mut s, &out, &cuts).is_err() {
                             return;
                         }
                     }
@@ -137,6 +155,9 @@ fn to_h2(f: &[(String, Vec<u8>)]) -> h2::HeaderList {
 
 pub fn start_h2_backend(addr: SocketAddr, shared: Arc<Shared>) -> std::io::Result<BackendServer> {
     BackendServer::start(addr, IoProgram::fast(), move |s, _| {
+        if let Ok(handle) = s.try_clone() {
+            shared.h2_conns.lock().unwrap().push(handle);
+        }
         let mut c = H2Conn::new(s, h2::Role::Server);
         c.auto_ack = true;
         c.obey_windows = true;
@@ -192,6 +213,12 @@ pub fn start_h2_backend(addr: SocketAddr, shared: Arc<Shared>) -> std::io::Resul
                     None
                 }
                 h2::Event::Closed => return,
+                h2::Event::Malformed { frame, why } => {
+                    // e.g. an HPACK block this independent decoder cannot decode: the connection's
+                    // compression state is lost, nothing read after this can be trusted
+                    shared.note(format!("h2c backend: malformed frame from sozu ({}): {why}", frame.describe()));
+                    return;
+                }
                 _ => None,
             };
             let Some(stream) = done else { continue };
@@ -366,7 +393,8 @@ impl Lane {
     }
 }
 
-pub fn encode_h1(spec: &ReqSpec) -> Vec<u8> {
+/// the request bytes and the byte offsets at which they are cut into segments
+pub fn encode_h1(spec: &ReqSpec) -> (Vec<u8>, Vec<usize>) {
     let mut out = format!("{} {} HTTP/1.1\r\n", spec.method, spec.path).into_bytes();
     let host = format!("Host: {}\r\n", spec.authority);
     if !spec.host_last {
@@ -381,22 +409,40 @@ pub fn encode_h1(spec: &ReqSpec) -> Vec<u8> {
     if spec.host_last {
         out.extend_from_slice(host.as_bytes());
     }
+    // regions: (start, end) byte ranges
+    let mut chunk_size_line = (0usize, 0usize);
+    let mut body = (0usize, 0usize);
+    let mut trailer_region = (0usize, 0usize);
+    let head_end;
     match &spec.body {
-        Body::None => out.extend_from_slice(b"\r\n"),
+        Body::None => {
+            out.extend_from_slice(b"\r\n");
+            head_end = out.len();
+        }
         Body::Length(b) => {
             out.extend_from_slice(format!("Content-Length: {}\r\n\r\n", b.len()).as_bytes());
+            head_end = out.len();
             out.extend_from_slice(b);
+            body = (head_end, out.len());
         }
         Body::Chunked(b, tr) => {
             out.extend_from_slice(b"Transfer-Encoding: chunked\r\n\r\n");
+            head_end = out.len();
             let mut i = 0;
             while i < b.len() {
                 let n = (b.len() - i).min(23);
+                let line_start = out.len();
                 out.extend_from_slice(format!("{n:x}\r\n").as_bytes());
+                if i == 0 {
+                    chunk_size_line = (line_start, out.len());
+                    body.0 = out.len();
+                }
                 out.extend_from_slice(&b[i..i + n]);
+                body.1 = out.len();
                 out.extend_from_slice(b"\r\n");
                 i += n;
             }
+            let region_start = out.len();
             out.extend_from_slice(b"0\r\n");
             for (n, v) in tr {
                 out.extend_from_slice(n.as_bytes());
@@ -405,13 +451,48 @@ pub fn encode_h1(spec: &ReqSpec) -> Vec<u8> {
                 out.extend_from_slice(b"\r\n");
             }
             out.extend_from_slice(b"\r\n");
+            trailer_region = (region_start, out.len());
         }
     }
-    out
+    let inside = |(a, b): (usize, usize), pm: u16| -> Option<usize> {
+        // a position strictly inside the region (both sides non-empty)
+        (b > a + 1).then(|| a + 1 + (pm as usize * (b - a - 1)) / 1001)
+    };
+    let mut cuts: Vec<usize> = spec
+        .cuts
+        .iter()
+        .filter_map(|c| match *c {
+            Cut::InHead(pm) => inside((0, head_end), pm),
+            Cut::HeadBody => Some(head_end),
+            Cut::InChunkSize(pm) => inside(chunk_size_line, pm),
+            Cut::InBody(pm) => inside(body, pm),
+            Cut::InTrailerRegion(pm) => inside(trailer_region, pm),
+        })
+        .filter(|o| *o > 0 && *o < out.len())
+        .collect();
+    cuts.sort();
+    cuts.dedup();
+    (out, cuts)
 }
 
-fn h1_exchange<S: Read + Write>(s: &mut S, req: &[u8], wait: Duration) -> Result<ObsResp, ExchangeError> {
-    if let Err(e) = s.write_all(req).and_then(|_| s.flush()) {
+/// pause between two segments of a request: long enough for sozu to read the first one alone
+const SEGMENT_PAUSE: Duration = Duration::from_millis(3);
+
+fn write_segmented<S: Write>(s: &mut S, req: &[u8], cuts: &[usize]) -> std::io::Result<()> {
+    let mut from = 0;
+    for &cut in cuts.iter().chain(std::iter::once(&req.len())) {
+        if from > 0 {
+            std::thread::sleep(SEGMENT_PAUSE);
+        }
+        s.write_all(&req[from..cut])?;
+        s.flush()?;
+        from = cut;
+    }
+    Ok(())
+}
+
+fn h1_exchange<S: Read + Write>(s: &mut S, (req, cuts): &(Vec<u8>, Vec<usize>), wait: Duration) -> Result<ObsResp, ExchangeError> {
+    if let Err(e) = write_segmented(s, req, cuts) {
         // sozu may have answered and closed already: still try to read an answer
         if e.kind() == std::io::ErrorKind::WouldBlock || e.kind() == std::io::ErrorKind::TimedOut {
             return Err(ExchangeError::Timeout(format!("write: {e}")));
@@ -536,6 +617,7 @@ fn h2_exchange(c: &mut H2Conn<tls::TlsClient>, spec: &ReqSpec, wait: Duration) -
             }
             Ok(Some(h2::Event::RstStream { stream, code })) if stream == sid => return Err(ExchangeError::Refused(code)),
             Ok(Some(h2::Event::GoAway { code, last, .. })) if last < sid => return Err(ExchangeError::Refused(code)),
+            Ok(Some(h2::Event::Malformed { frame, why })) => return Err(ExchangeError::Malformed(format!("H2 client cannot interpret {}: {why}", frame.describe()), Vec::new())),
             Ok(Some(h2::Event::Closed)) => return Err(ExchangeError::Closed(format!("h2 connection closed ({:?})", c.close_kind))),
             Ok(_) => {}
             Err(e) => return Err(h2_err(e)),
